@@ -46,7 +46,7 @@ def run(ctx: Ctx) -> None:
     repo = ctx.repo
     L = layout.Layout(e)
     ctx.trusted += ["f-string / str.format concatenation as modelled"]
-    locf = repo.loc("pprint", repo.func("pprint.PrettyPrinter._format"))
+    locf = repo.loc("pprint", repo.func(models.fmt_qual(repo)))
     W = layout.word
     cd = layout.cdict
 
